@@ -390,3 +390,87 @@ def r_link(P, chk):
                     chk.violation(rid, "link:%s:%s->mate=%s" % (f.name, b, r), f.where(x),
                                   "%s sets %s->mate = %s without the reverse link" % (f.name, b, r))
     chk.floor(rid, n, 15, "next / mate stores")
+
+
+# ---------------------------------------------------------------------------
+# R-BYTECLASS (C16)
+
+CTYPE = {"tolower", "toupper", "isalpha", "isdigit", "isalnum", "isspace", "ispunct", "isupper", "islower", "isprint", "isxdigit"}
+
+
+def r_byteclass(P, chk):
+    from .ub1 import UB1
+    rid = "R-BYTECLASS"
+    chk.rule(rid, "bytes >= 0x80 are neutral for the byte classifier and for every ctype call (two necessary conditions of "
+                  "'multi-byte characters are never split or case-mapped bytewise')")
+    u = P.units.get("char.c")
+    if u is None:
+        raise AnalysisBroken("char.c is gone")
+    tab = [v for v in u.vars if v["name"] == "smart_char_type"]
+    if not tab or not isinstance(tab[0]["init"], list) or len(tab[0]["init"]) != 256:
+        raise AnalysisBroken("char.c: smart_char_type[256] initialiser not found")
+    init = tab[0]["init"]
+    bad = [i for i in range(128, 256) if init[i] != 0]
+    # 0xA0 is what the lexer treats as a space; everything else >= 0x80 must be unclassified
+    chk.obligation(rid, "smart_char_type[0x80..0xFF] are all 0 (no high byte is whitespace / punctuation / alpha)", not bad)
+    for i in bad:
+        chk.violation(rid, "byteclass:table:0x%02x" % i, "char.c", "smart_char_type[0x%02x] = %d: a UTF-8 lead or continuation byte is "
+                      "classified (%s); byte-wise trimming / ambidextrous logic can cut a multi-byte character" % (i, init[i], init[i]))
+    ascii_classified = sum(1 for i in range(128) if init[i])
+    chk.floor(rid, ascii_classified, 60, "classified ASCII bytes in smart_char_type")
+    n = 0
+    for f in u.funcs.values():
+        for x in f.walk():
+            if x["k"] == "ArraySubscriptExpr" and key(x["c"][0]) == "smart_char_type":
+                n += 1
+                idx = x["c"][1]
+                s = idx
+                while s is not None and s["k"] in ("ParenExpr", "ImplicitCastExpr") :
+                    s = s["c"][0]
+                ok = s is not None and s["k"] == "CStyleCastExpr" and "unsigned char" in s.get("t", "")
+                chk.obligation(rid, "%s %s: table index is (unsigned char)" % (f.where(x), f.name), ok, sample=False)
+                if not ok:
+                    chk.violation(rid, "byteclass:index:%s" % f.name, f.where(x), "%s indexes smart_char_type with a possibly negative "
+                                  "char: bytes >= 0x80 read before the table" % f.name)
+    chk.floor(rid, n, 10, "smart_char_type lookups")
+    # ctype
+    sl = []
+    sites = []
+    for f in P.all_funcs:
+        if not P.first_party(f) and f.unit.base != "argtable3.c":
+            continue
+        for c in f.calls():
+            if c.get("callee") == "setlocale":
+                sl.append((f, c))
+            if c.get("callee") in CTYPE and P.first_party(f) and f.unit.base not in compdb.GENERATED_UNITS:
+                sites.append((f, c))
+    ok = not [x for x in sl if x[0].unit.base != "argtable3.c"]
+    chk.obligation(rid, "no first-party code calls setlocale: ctype functions run in the \"C\" locale, where they are the identity / "
+                   "false on bytes >= 0x80", ok)
+    for f, c in sl:
+        if f.unit.base != "argtable3.c":
+            chk.violation(rid, "byteclass:setlocale:%s" % f.name, f.where(c), "%s calls setlocale: tolower/toupper may now map bytes "
+                          ">= 0x80 of UTF-8 sequences" % f.name)
+    for f, c in sites:
+        chk.obligation(rid, "%s %s: %s() (C locale)" % (f.where(c), f.name, c["callee"]), True, nontrivial=False, sample=False)
+    chk.floor(rid, len(sites), 5, "ctype call sites")
+    # label_from_string keeps multi-byte sequences together and only case-maps ASCII
+    lf = P.func("label_from_string", "writer.c")
+    loops = [w for w in lf.walk() if w["k"] in ("WhileStmt", "IfStmt") and "&192)==128" in key(w["c"][0]).replace(" ", "")]
+    app_plain = False
+    for w in loops:
+        for x in walk(w["c"][1]):
+            if x["k"] == "CallExpr" and x.get("callee") == "d_string_append_c" and key(x["c"][2]) in ("*str",):
+                app_plain = True
+    chk.obligation(rid, "label_from_string copies lead + continuation bytes ((b & 0xC0) == 0x80) without classification", bool(loops) and app_plain)
+    if not (loops and app_plain):
+        chk.violation(rid, "byteclass:label:continuation", lf.where(), "label_from_string no longer keeps continuation bytes "
+                      "((b & 0xC0) == 0x80) with their lead byte")
+    ub = UB1(lf)
+    for c in lf.calls("tolower"):
+        iv = ub.interval_at(c["c"][1], at=c)
+        ok = iv is not None and 0 <= iv[0] and iv[1] <= 127
+        chk.obligation(rid, "%s label_from_string: tolower() only sees ASCII (derived range %s)" % (lf.where(c), iv), ok)
+        if not ok:
+            chk.violation(rid, "byteclass:label:tolower", lf.where(c), "label_from_string applies tolower() to a byte that is not "
+                          "range-checked as ASCII (range %s)" % (iv,))
